@@ -868,8 +868,8 @@ func vC35GenProbe(r *vRand, c *vC35Case) bool {
 					if app < 256 && r.Intn(4) != 0 {
 						app = c.appid
 					}
-					if app == 0 {
-						app = c.appid
+					if _, exists := vC35AppVer[app]; !exists && (app < 601 || app > 604) {
+						app = c.appid // authorizeBoxAccess looks the owner up: keep to apps of the ledger
 					}
 				}
 				if len(m.boxes) > 0 && r.Intn(3) > 0 {
